@@ -11,7 +11,7 @@ structure Inv (s : St) : Prop where
   blocker_gate : (s.down = .fulfilSeen ∨ s.down = .removedByFulfil) → s.blocker = false → s.upPreimageDurable = true
   raa_gate : s.down = .removedByFulfil → (s.downRaaUpdate = .handedToWatch ∨ s.downRaaUpdate = .durable) → s.upPreimageDurable = true
   raa_removed : s.downRaaUpdate ≠ .notYet → (s.down = .removedByFulfil ∨ s.down = .removedByFail)
-  blocked_fulfil : s.downRaaUpdate = .blocked → s.down = .removedByFulfil
+  blocked_fulfil : s.downRaaUpdate = .blocked → (s.down = .removedByFulfil ∨ s.down = .removedByFail)
   fulfil_sent : s.up = .fulfilSent → s.upPreimageDurable = true
   fail_sent : s.up = .failSent → failAllowed s = true
 
@@ -21,7 +21,7 @@ structure InvCore (s : St) : Prop where
   blocker_gate : (s.down = .fulfilSeen ∨ s.down = .removedByFulfil) → s.blocker = false → s.upPreimageDurable = true
   raa_gate : s.down = .removedByFulfil → (s.downRaaUpdate = .handedToWatch ∨ s.downRaaUpdate = .durable) → s.upPreimageDurable = true
   raa_removed : s.downRaaUpdate ≠ .notYet → (s.down = .removedByFulfil ∨ s.down = .removedByFail)
-  blocked_fulfil : s.downRaaUpdate = .blocked → s.down = .removedByFulfil
+  blocked_fulfil : s.downRaaUpdate = .blocked → (s.down = .removedByFulfil ∨ s.down = .removedByFail)
   fulfil_sent : s.up = .fulfilSent → s.upPreimageDurable = true
   fail_sent : s.up = .failSent → failAllowed s = true
 
@@ -37,25 +37,54 @@ theorem inv_of_fields (s : St) (a b : Bool) (h : Inv s) : Inv { s with alive := 
   constructor <;> simp_all [knowsPreimage, failAllowed]
 
 theorem inv_releaseBlocked (s : St) (h : Inv s) : Inv (releaseBlocked s) := by
-  obtain ⟨alive, sync, down, uh, ud, cs, raa, bl, uo, up, depth⟩ := s; obtain ⟨h1, h2, h3, h4, h5, h6, h7, h8⟩ := h
-  cases sync <;> cases bl <;> cases raa <;> fwd_cases
+  unfold releaseBlocked; split
+  · rename_i hc
+    obtain ⟨alive, sync, down, uh, ud, cs, raa, bl, uo, up, depth, dother⟩ := s; obtain ⟨h1, h2, h3, h4, h5, h6, h7, h8⟩ := h
+    cases sync <;> cases bl <;> cases raa <;> fwd_cases
+  · exact h
 
 theorem inv_runUpActions (s : St) (h : Inv s) : Inv (runUpActions s) := by
-  obtain ⟨alive, sync, down, uh, ud, cs, raa, bl, uo, up, depth⟩ := s; obtain ⟨h1, h2, h3, h4, h5, h6, h7, h8⟩ := h
-  cases sync <;> cases uh <;> cases ud <;> cases raa <;> cases uo <;> fwd_cases
+  unfold runUpActions; split
+  · exact h
+  · apply inv_releaseBlocked
+    rename_i hc
+    obtain ⟨alive, sync, down, uh, ud, cs, raa, bl, uo, up, depth, dother⟩ := s; obtain ⟨h1, h2, h3, h4, h5, h6, h7, h8⟩ := h
+    cases uh <;> cases ud <;> cases uo <;> fwd_cases
 
 theorem inv_claimUpstream (s : St) (h : Inv s) : Inv (claimUpstream s) := by
-  obtain ⟨alive, sync, down, uh, ud, cs, raa, bl, uo, up, depth⟩ := s; obtain ⟨h1, h2, h3, h4, h5, h6, h7, h8⟩ := h
-  cases sync <;> cases uh <;> cases ud <;> cases raa <;> cases uo <;> fwd_cases
+  unfold claimUpstream; split
+  · exact inv_runUpActions _ h
+  · apply inv_runUpActions
+    rename_i hc
+    obtain ⟨alive, sync, down, uh, ud, cs, raa, bl, uo, up, depth, dother⟩ := s; obtain ⟨h1, h2, h3, h4, h5, h6, h7, h8⟩ := h
+    cases sync <;> cases uh <;> cases ud <;> fwd_cases
 
 theorem inv_claimUpstream_core (s : St) (h : InvCore s) : Inv (claimUpstream s) := by
-  obtain ⟨alive, sync, down, uh, ud, cs, raa, bl, uo, up, depth⟩ := s
-  obtain ⟨h1, h3, h4, h5, h6, h7, h8⟩ := h
-  cases sync <;> cases uh <;> cases ud <;> cases raa <;> cases uo <;> fwd_cases
+  unfold claimUpstream; split
+  · apply inv_runUpActions
+    rename_i hc
+    obtain ⟨alive, sync, down, uh, ud, cs, raa, bl, uo, up, depth, dother⟩ := s
+    obtain ⟨h1, h3, h4, h5, h6, h7, h8⟩ := h
+    cases uh <;> fwd_cases
+  · apply inv_runUpActions
+    rename_i hc
+    obtain ⟨alive, sync, down, uh, ud, cs, raa, bl, uo, up, depth, dother⟩ := s
+    obtain ⟨h1, h3, h4, h5, h6, h7, h8⟩ := h
+    cases sync <;> cases uh <;> cases ud <;> fwd_cases
 
-theorem inv_completeAll (s : St) (h : Inv s) : Inv (completeAll s) := by
-  obtain ⟨alive, sync, down, uh, ud, cs, raa, bl, uo, up, depth⟩ := s; obtain ⟨h1, h2, h3, h4, h5, h6, h7, h8⟩ := h
-  cases sync <;> cases uh <;> cases raa <;> cases cs <;> fwd_cases
+theorem inv_completeAll_pre (s : St) (h : Inv s) :
+    Inv { s with upPreimageDurable := s.upPreimageHandedToWatch, upOther := 0,
+                 downCsUpdate := if s.downCsUpdate == .handedToWatch then .durable else s.downCsUpdate } := by
+  obtain ⟨alive, sync, down, uh, ud, cs, raa, bl, uo, up, depth, dother⟩ := s; obtain ⟨h1, h2, h3, h4, h5, h6, h7, h8⟩ := h
+  cases uh <;> cases ud <;> fwd_cases
+
+theorem inv_raaDurable (s : St) (h : Inv s) :
+    Inv { s with downRaaUpdate := if s.downRaaUpdate == .handedToWatch then .durable else s.downRaaUpdate } := by
+  obtain ⟨alive, sync, down, uh, ud, cs, raa, bl, uo, up, depth, dother⟩ := s; obtain ⟨h1, h2, h3, h4, h5, h6, h7, h8⟩ := h
+  cases raa <;> fwd_cases
+
+theorem inv_completeAll (s : St) (h : Inv s) : Inv (completeAll s) :=
+  inv_raaDurable _ (inv_runUpActions _ (inv_completeAll_pre s h))
 
 theorem inv_setSync (s : St) (b : Bool) (h : Inv s) : Inv (step s (.setSync b)) := by
   simp only [step]; split <;> first | exact h | exact inv_of_fields s s.alive b h
@@ -64,25 +93,25 @@ theorem inv_recvFulfilDown (s : St) (h : Inv s) : Inv (step s .recvFulfilDown) :
   simp only [step]; split
   · apply inv_claimUpstream_core
     rename_i hc
-    obtain ⟨alive, sync, down, uh, ud, cs, raa, bl, uo, up, depth⟩ := s
+    obtain ⟨alive, sync, down, uh, ud, cs, raa, bl, uo, up, depth, dother⟩ := s
     obtain ⟨h1, h2, h3, h4, h5, h6, h7, h8⟩ := h
     cases down <;> cases raa <;> (constructor <;> fwd_simp)
   · exact h
 
 theorem inv_recvFailDown (s : St) (h : Inv s) : Inv (step s .recvFailDown) := by
-  obtain ⟨alive, sync, down, uh, ud, cs, raa, bl, uo, up, depth⟩ := s
+  obtain ⟨alive, sync, down, uh, ud, cs, raa, bl, uo, up, depth, dother⟩ := s
   simp only [step]; split <;> first | exact h | (obtain ⟨h1, h2, h3, h4, h5, h6, h7, h8⟩ := h; fwd_cases)
 
 theorem inv_recvCsDown (s : St) (h : Inv s) : Inv (step s .recvCsDown) := by
-  obtain ⟨alive, sync, down, uh, ud, cs, raa, bl, uo, up, depth⟩ := s
+  obtain ⟨alive, sync, down, uh, ud, cs, raa, bl, uo, up, depth, dother⟩ := s
   simp only [step]; split <;> first | exact h | (obtain ⟨h1, h2, h3, h4, h5, h6, h7, h8⟩ := h; cases sync <;> fwd_cases)
 
 theorem inv_recvRaaDown (s : St) (h : Inv s) : Inv (step s .recvRaaDown) := by
-  obtain ⟨alive, sync, down, uh, ud, cs, raa, bl, uo, up, depth⟩ := s
+  obtain ⟨alive, sync, down, uh, ud, cs, raa, bl, uo, up, depth, dother⟩ := s
   simp only [step]; split
   · split
     · split <;> (obtain ⟨h1, h2, h3, h4, h5, h6, h7, h8⟩ := h; cases sync <;> fwd_cases)
-    · (obtain ⟨h1, h2, h3, h4, h5, h6, h7, h8⟩ := h; cases sync <;> fwd_cases)
+    · (obtain ⟨h1, h2, h3, h4, h5, h6, h7, h8⟩ := h; cases dother <;> cases sync <;> fwd_cases)
     · exact h
   · exact h
 
@@ -91,27 +120,27 @@ theorem inv_complete (s : St) (w : Which) (h : Inv s) : Inv (step s (.complete w
   · simp only [step]; split
     · apply inv_runUpActions
       rename_i hc
-      obtain ⟨alive, sync, down, uh, ud, cs, raa, bl, uo, up, depth⟩ := s; obtain ⟨h1, h2, h3, h4, h5, h6, h7, h8⟩ := h
+      obtain ⟨alive, sync, down, uh, ud, cs, raa, bl, uo, up, depth, dother⟩ := s; obtain ⟨h1, h2, h3, h4, h5, h6, h7, h8⟩ := h
       fwd_cases
     · exact h
-  · obtain ⟨alive, sync, down, uh, ud, cs, raa, bl, uo, up, depth⟩ := s
+  · obtain ⟨alive, sync, down, uh, ud, cs, raa, bl, uo, up, depth, dother⟩ := s
     simp only [step]; split <;> first | exact h | (obtain ⟨h1, h2, h3, h4, h5, h6, h7, h8⟩ := h; fwd_cases)
-  · obtain ⟨alive, sync, down, uh, ud, cs, raa, bl, uo, up, depth⟩ := s
+  · obtain ⟨alive, sync, down, uh, ud, cs, raa, bl, uo, up, depth, dother⟩ := s
     simp only [step]; split <;> first | exact h | (obtain ⟨h1, h2, h3, h4, h5, h6, h7, h8⟩ := h; cases raa <;> fwd_cases)
 
 theorem inv_handUpOther (s : St) (h : Inv s) : Inv (step s .handUpOther) := by
-  obtain ⟨alive, sync, down, uh, ud, cs, raa, bl, uo, up, depth⟩ := s
+  obtain ⟨alive, sync, down, uh, ud, cs, raa, bl, uo, up, depth, dother⟩ := s
   simp only [step]; split <;> first | exact h | (obtain ⟨h1, h2, h3, h4, h5, h6, h7, h8⟩ := h; fwd_cases)
 
 theorem inv_completeUpOther (s : St) (h : Inv s) : Inv (step s .completeUpOther) := by
   simp only [step]; split
   · apply inv_runUpActions
-    obtain ⟨alive, sync, down, uh, ud, cs, raa, bl, uo, up, depth⟩ := s; obtain ⟨h1, h2, h3, h4, h5, h6, h7, h8⟩ := h
+    obtain ⟨alive, sync, down, uh, ud, cs, raa, bl, uo, up, depth, dother⟩ := s; obtain ⟨h1, h2, h3, h4, h5, h6, h7, h8⟩ := h
     fwd_cases
   · exact h
 
 theorem inv_crash (s : St) (lost : Bool) (h : Inv s) : Inv (step s (.crash lost)) := by
-  obtain ⟨alive, sync, down, uh, ud, cs, raa, bl, uo, up, depth⟩ := s
+  obtain ⟨alive, sync, down, uh, ud, cs, raa, bl, uo, up, depth, dother⟩ := s
   simp only [step]; split
   · split <;> (obtain ⟨h1, h2, h3, h4, h5, h6, h7, h8⟩ := h; cases raa <;> cases cs <;> fwd_cases)
   · exact h
@@ -134,22 +163,33 @@ theorem inv_chainPreimage (s : St) (h : Inv s) : Inv (step s .chainPreimage) := 
   simp only [step]; split
   · apply inv_claimUpstream_core
     rename_i hc
-    obtain ⟨alive, sync, down, uh, ud, cs, raa, bl, uo, up, depth⟩ := s
+    obtain ⟨alive, sync, down, uh, ud, cs, raa, bl, uo, up, depth, dother⟩ := s
     obtain ⟨h1, h2, h3, h4, h5, h6, h7, h8⟩ := h
     cases down <;> cases raa <;> (constructor <;> fwd_simp)
   · exact h
 
 theorem inv_chainTimeout (s : St) (d : Nat) (h : Inv s) : Inv (step s (.chainTimeout d)) := by
-  obtain ⟨alive, sync, down, uh, ud, cs, raa, bl, uo, up, depth⟩ := s
+  obtain ⟨alive, sync, down, uh, ud, cs, raa, bl, uo, up, depth, dother⟩ := s
   simp only [step]; split <;> first | exact h | (obtain ⟨h1, h2, h3, h4, h5, h6, h7, h8⟩ := h; cases down <;> cases raa <;> fwd_cases)
 
 theorem inv_sendFulfilUp (s : St) (h : Inv s) : Inv (step s .sendFulfilUp) := by
-  obtain ⟨alive, sync, down, uh, ud, cs, raa, bl, uo, up, depth⟩ := s
+  obtain ⟨alive, sync, down, uh, ud, cs, raa, bl, uo, up, depth, dother⟩ := s
   simp only [step]; split <;> first | exact h | (obtain ⟨h1, h2, h3, h4, h5, h6, h7, h8⟩ := h; cases up <;> cases ud <;> fwd_cases)
 
 theorem inv_sendFailUp (s : St) (h : Inv s) : Inv (step s .sendFailUp) := by
-  obtain ⟨alive, sync, down, uh, ud, cs, raa, bl, uo, up, depth⟩ := s
+  obtain ⟨alive, sync, down, uh, ud, cs, raa, bl, uo, up, depth, dother⟩ := s
   simp only [step]; split <;> first | exact h | (obtain ⟨h1, h2, h3, h4, h5, h6, h7, h8⟩ := h; cases up <;> fwd_cases)
+
+theorem inv_addDownOther (s : St) (h : Inv s) : Inv (step s .addDownOther) := by
+  obtain ⟨alive, sync, down, uh, ud, cs, raa, bl, uo, up, depth, dother⟩ := s
+  simp only [step]; split <;> first | exact h | (obtain ⟨h1, h2, h3, h4, h5, h6, h7, h8⟩ := h; fwd_cases)
+
+theorem inv_removeDownOther (s : St) (h : Inv s) : Inv (step s .removeDownOther) := by
+  simp only [step]; split
+  · apply inv_releaseBlocked
+    obtain ⟨alive, sync, down, uh, ud, cs, raa, bl, uo, up, depth, dother⟩ := s; obtain ⟨h1, h2, h3, h4, h5, h6, h7, h8⟩ := h
+    fwd_cases
+  · exact h
 
 theorem inv_step (s : St) (op : Op) (h : Inv s) : Inv (step s op) := by
   cases op with
@@ -165,6 +205,8 @@ theorem inv_step (s : St) (op : Op) (h : Inv s) : Inv (step s op) := by
   | restart sy => exact inv_restart s sy h
   | chainPreimage => exact inv_chainPreimage s h
   | chainTimeout d => exact inv_chainTimeout s d h
+  | addDownOther => exact inv_addDownOther s h
+  | removeDownOther => exact inv_removeDownOther s h
   | sendFulfilUp => exact inv_sendFulfilUp s h
   | sendFailUp => exact inv_sendFailUp s h
 
@@ -178,10 +220,10 @@ theorem inv_reachable (ops : List Op) : Inv (run init ops) := inv_run _ _ inv_in
 /-- once the preimage update is with `chain::Watch`, completing it enables (and `sendFulfilUp` performs) the upstream claim -/
 theorem claim_after_complete (t : St) (ha : t.alive = true) (hh : t.upPreimageHandedToWatch = true)
     (hp : t.up = .pending) : (run t [.complete .up, .sendFulfilUp]).up = .fulfilSent := by
-  obtain ⟨alive, sync, down, uh, ud, cs, raa, bl, uo, up, depth⟩ := t
+  obtain ⟨alive, sync, down, uh, ud, cs, raa, bl, uo, up, depth, dother⟩ := t
   simp only at ha hh hp
   subst ha hh hp
-  cases sync <;> cases ud <;> cases raa <;> cases bl <;> cases uo <;>
+  cases dother <;> cases sync <;> cases ud <;> cases raa <;> cases bl <;> cases uo <;>
     simp [run, step, releaseBlocked, runUpActions, upBusy, handRaa, fulfilAllowed]
 
 /-! ### which fields the helper steps touch -/
